@@ -54,6 +54,18 @@ def run(tier, seed, work, replay):
          sum([[F, W] for _ in range(5)], []) + [T, W, T, {"op": "wait", "d": 3700}, T]},
         {"kind": "otp", "origin": "day-reset", "steps": sum([[F, W] for _ in range(4)], []) + [{"op": "wait", "d": 90000}, F, W, T]},
     ]
+    # every history once more with the daemon's periodic clean-up passing by after each pause
+    SW = {"op": "sweep"}
+    swept = []
+    for c in systematic:
+        if c["kind"] == "otp":
+            st = []
+            for x in c["steps"]:
+                st.append(x)
+                if x.get("op") == "wait":
+                    st.append(SW)
+            swept.append({"kind": "otp", "origin": c["origin"] + "+sweeps", "steps": st})
+    systematic = systematic + swept
     n, depth = (25, 30) if tier == "quick" else (300, 45)
     cases = [{"kind": "bucket", "burst": 12, "rate": 2, "sequential": 36 if tier == "quick" else 120, "pauseEvery": 12, "pauseMs": 1500,
               "concurrentEach": 25 if tier == "quick" else 120}] + systematic + simulate(work, n, depth, seed)
@@ -63,7 +75,22 @@ def run(tier, seed, work, replay):
     epath, _ = E.run_harness(binary, PROP, work, cases=cpath)
     evs = E.read_ndjson(epath)
     devs = E.monitor(work, "Trace_KMThrottle", "Trace_KMThrottle.cfg", epath, cov)
-    cov["traces_validated_against_impl"] = len(cases)
+    # a second operator setting, refill rate ABOVE the burst size (burst 10 = the loader's minimum, 40 per second): the burst
+    # still bounds what an instantaneous flood gets through
+    cases2 = [{"kind": "bucket", "burst": 10, "rate": 40, "sequential": 150 if tier == "quick" else 600, "pauseEvery": 50, "pauseMs": 400,
+               "concurrentEach": 25 if tier == "quick" else 120}]
+    cp2 = work.path("cases-b10r40.ndjson")
+    E.write_ndjson(cp2, cases2)
+    ep2, _ = E.run_harness(binary, PROP, work, cases=cp2, events=work.path("events-b10r40.ndjson"))
+    evs2 = E.read_ndjson(ep2)
+    for d in E.monitor(work, "Trace_KMThrottle", "Trace_KMThrottle_b10r40.cfg", ep2, cov, tag="Trace_KMThrottle-b10r40"):
+        ev2 = evs2[d["line"] - 1]
+        sg = {"action": ev2["ev"], "guards": d["guards"], "setting": "burst10-rate40"}
+        if res.classify(sg, {"event": ev2, "origin": "bucket burst 10 rate 40"}, known) == "violation":
+            res.sample({"deviation": d, "event": ev2})
+    cov["second_setting_attempts"] = sum(1 for e in evs2 if e["ev"] == "Attempt")
+    cov["second_setting_backend_reached"] = sum(1 for e in evs2 if e["ev"] == "Attempt" and e["called"])
+    cov["traces_validated_against_impl"] = len(cases) + 1
     cov["evaluations"] = sum(1 for e in evs if e["ev"] in ("Attempt", "Otp", "OtpPhase"))
     cov["otp_phase_probes"] = sum(1 for e in evs if e["ev"] == "OtpPhase")
     cov["otp_phase_probes_refused_as_too_early"] = sum(1 for e in evs if e["ev"] == "OtpPhase" and not e["evaluated"])
